@@ -31,12 +31,11 @@ func (l *LineFilterPlanner) Process(ctx *shared.PlannerContext) (sql.ISelect, er
 	case "|~":
 		likeStr, isInsensitive, isLike := l.re2Like()
 		if isLike {
-			l.Val = likeStr
 			like := "like"
 			if isInsensitive {
 				like = "ilike"
 			}
-			clause, err = l.doLike(like)
+			clause, err = l.doLikeVal(like, likeStr)
 		} else {
 			clause = sql.Eq(&sqlMatch{
 				col:     sql.NewRawObject("string"),
@@ -47,12 +46,11 @@ func (l *LineFilterPlanner) Process(ctx *shared.PlannerContext) (sql.ISelect, er
 	case "!~":
 		likeStr, isInsensitive, isLike := l.re2Like()
 		if isLike {
-			l.Val = likeStr
 			like := "notLike"
 			if isInsensitive {
 				like = "notILike"
 			}
-			clause, err = l.doLike(like)
+			clause, err = l.doLikeVal(like, likeStr)
 		} else {
 			clause = sql.Eq(&sqlMatch{
 				col:     sql.NewRawObject("string"),
@@ -71,7 +69,11 @@ func (l *LineFilterPlanner) Process(ctx *shared.PlannerContext) (sql.ISelect, er
 }
 
 func (l *LineFilterPlanner) doLike(likeOp string) (sql.SQLCondition, error) {
-	enqVal, err := l.enquoteStr(l.Val)
+	return l.doLikeVal(likeOp, l.Val)
+}
+
+func (l *LineFilterPlanner) doLikeVal(likeOp string, val string) (sql.SQLCondition, error) {
+	enqVal, err := l.enquoteStr(val)
 	if err != nil {
 		return nil, err
 	}
